@@ -129,6 +129,7 @@ func (srv *Server) handleChannel(ctx context.Context, c *ServerChannel) {
 
 	if err != nil {
 		log.Printf("server: establish: %v\n", err)
+		_ = c.Close()
 		return
 	}
 
